@@ -62,7 +62,14 @@ class SetAlg:
         if x[1] not in ("set", "list"):
             raise Undecided(f"local container of kind {x[1]} in a set expression")
         init = x[4] if len(x) > 4 else None
-        base = self.resolve(init) if op(init) in ("set", "list", "tuple") and init[1] else ("set", ())
+        if op(init) == "call" and op(init[1]) == "builtin" and callee_name(init) in PASS and len(init[2]) == 1:
+            base = self.resolve(init)  # rv = set(xs): starts out with the elements of xs
+        elif op(init) in ("set", "list", "tuple") and init[1]:
+            base = self.resolve(init)
+        elif init is None or (op(init) in ("set", "list", "tuple") and not init[1]) or (op(init) == "call" and op(init[1]) == "builtin" and not init[2]):
+            base = ("set", ())
+        else:
+            raise Undecided(f"local container initialised with `{show(init)[:50]}`")
         muts = []
         if self.summary is not None:
             seen = set()
